@@ -266,6 +266,13 @@ fn vstream(profile: &str, seed: u64, start: u64, count: u64, verbose: bool, tall
                                 f.path = None;
                             }
                         }
+                        // a source path that is not valid UTF-8 (a Latin-1 file name on a Unix file system)
+                        if idx % 11 == 5 {
+                            if let Some(f) = feats.last_mut() {
+                                use std::os::unix::ffi::OsStringExt as _;
+                                f.path = Some(std::path::PathBuf::from(std::ffi::OsString::from_vec(b"/virt/caf\xE9.feature".to_vec())));
+                            }
+                        }
                         // twin features: same name, no path (one JSON feature object), same layout
                         // (same lines), the first one's scenario names ending with the second one's
                         if idx % 7 == 3 {
